@@ -12,6 +12,7 @@ import (
 	"io"
 	"math/rand"
 	"os"
+	"path"
 	"path/filepath"
 	"sort"
 	"strings"
@@ -458,20 +459,23 @@ func c19HashDir(prefix string, t []c19E) string {
 	if err != nil {
 		return "" // the tree could not be created on this file system: not a verdict
 	}
-	if !(c19GoodPrefix(prefix) || prefix == "") {
-		return ""
-	}
 	named := make([]c19E, len(t))
 	for i, e := range t {
 		named[i] = e
-		if prefix != "" {
+		if c19GoodPrefix(prefix) {
 			named[i].N = prefix + "/" + e.N
+		} else if prefix != "" {
+			// any other prefix: the slash path "prefix joined with rel" (package path, not filepath)
+			named[i].N = path.Join(prefix, e.N)
 		}
 	}
 	want := c19Names(named)
 	sort.Strings(want)
 	if !out.filesOK || strings.Join(out.files, "\x00") != strings.Join(want, "\x00") || len(out.files) != len(want) {
 		return fmt.Sprintf("DirFiles(dir, %q) = %q, want %q", prefix, out.files, want)
+	}
+	if !(c19GoodPrefix(prefix) || prefix == "") {
+		return "" // which file an odd prefix makes HashDir open is not documented
 	}
 	spec := c19Spec(want, c19Lookup(named)).String()
 	if got := out.hash.String(); got != spec {
@@ -973,7 +977,7 @@ func runC19(c *hx.Ctx) {
 	}
 
 	// 1. Hash1 over abstract file sets: formula, order independence, correspondence
-	for i := 0; i < c.N(1500); i++ {
+	for i := 0; i < c.N(1300); i++ {
 		es, kind := c19FreeSet(r, false)
 		c.Count("hash1-set:" + kind)
 		c.Count(fmt.Sprintf("hash1-size:%d", min(len(es), 8)))
@@ -1014,7 +1018,7 @@ func runC19(c *hx.Ctx) {
 		c.Count("near:" + how)
 		msg := c19Near(a, b)
 		c.Check("distinct-sets-distinct-hashes", msg == "", "", c19In{Op: "near", Es: c19ToJ(a), Es2: c19ToJ(b)}, msg)
-		if i%5 == 0 {
+		if i%6 == 0 {
 			res := c19RunHash1(c19Names(b), b)
 			c.Case("Hash1", wire.L(wire.Strs(c19Names(b)), c19EntriesVal(b)), res)
 			nontrivial(b, res)
